@@ -319,7 +319,7 @@ def rule_broadcast(ctx):
         if not (arg[0] == 'comp' and arg[2][0] == 'attr' and arg[2][2] == 'name' and arg[3][0][1] == OTHER):
             ctx.violated('R3', fi, T.show(rs[0])[:120], 'the reshape target is the list of target axis names, in order', node=p.node)
             continue
-        if len(rp) != 1:
+        if len(set(id(e.node) for e in rp)) != 1:
             ctx.violated('R3', fi, 'repeat step', 'singleton axes must be repeated to the target size', node=p.node)
             continue
         e = rp[0]
@@ -331,8 +331,32 @@ def rule_broadcast(ctx):
         g_single = [pol for a, pol in e.guards if a[0] == 'cmp' and a[1] == '==' and a[3] == const(1) and a[2][0] == 'attr' and a[2][2] == 'size'
                     and a[2][1][0] == 'sub' and a[2][1][2] == ('attr', tgt, 'name')]
         g_target = [pol for a, pol in e.guards if a == T.mkcmp('==', ('attr', tgt, 'size'), const(1))]
-        if g_single != [True] or g_target != [False]:
-            ctx.violated('R3', fi, e.node, 'repeat exactly the axes that are singleton in the array (looked up by name) and not singleton in the target', node=e.node)
+        if g_single != [True] and True not in g_single:
+            ctx.violated('R3', fi, e.node, 'repeat exactly the axes that are singleton in the array (looked up by name)', node=e.node)
+            continue
+        # a dimension that reshape() had to insert carries the dummy label None: it must take the target's label even when the target axis has a single
+        # label (a repeat of one) - a guard `target.size != 1` alone leaves the None label in the result
+        evf = run(ctx, fi, mode='fork', oracle=lambda a, st: (False if (a[0] == 'call' and T.dotted(a[1]) == 'isinstance' and a[2][1] in (('name', 'list'), ('name', 'OrderedDict'))) else
+                                                              True if (a[0] == 'call' and T.dotted(a[1]) == 'isinstance') else None))
+        covers_single_target = False
+        overwrites_real = None
+        for q in evf.paths:
+            for e2 in q.calls('repeat'):
+                gt = [pol for a, pol in e2.guards if a[0] == 'cmp' and a[1] == '==' and a[3] == const(1) and a[2][0] == 'attr' and a[2][2] == 'size' and a[2][1][0] == 'elem']
+                none = [pol for a, pol in e2.guards if a[0] == 'cmp' and a[1] == 'is' and a[3] == T.CONST_NONE and pol is True]
+                if True in gt and none:
+                    covers_single_target = True
+                if not (False in gt or none):
+                    overwrites_real = e2
+        if overwrites_real is not None:
+            ctx.violated('R3', fi, 'own label of a singleton axis replaced', 'a size-1 axis of the array is relabelled with the target\'s labels whatever its own label is: an array '
+                         'with x = [5] broadcast onto x = [7] comes back labelled 7 (only the None placeholder of an inserted dimension, or a repeat to a longer axis, may '
+                         'replace the label)', node=overwrites_real.node)
+            continue
+        if not covers_single_target:
+            ctx.violated('R3', fi, 'placeholder label kept for a single-label target', 'the inserted dimension is relabelled only when the target axis has more than one label '
+                         '(guard target.size != 1): broadcasting onto Axis([42], \'s\') leaves the dummy label None instead of 42, and broadcast_arrays returns arrays with different axes',
+                         node=e.node)
             continue
         okb = True
     if okb:
